@@ -744,28 +744,60 @@ make_fn!(
     either!(reduce_expression, map_expression, filter_expression)
 );
 
-make_fn!(
-    range_expression<SliceIter<Token>, Expression>,
-    do_each!(
-        pos => pos,
-        start => either!(simple_expression, grouped_expression),
-        _ => punct!(":"),
-        maybe_step => optional!(
-            do_each!(
-                step => either!(simple_expression, grouped_expression),
-                _ => punct!(":"),
-                (Box::new(step))
+// Parses a simple or grouped expression and, when it is followed by `:`,
+// the remainder of a range expression. The leading operand is parsed exactly
+// once whether or not a range follows; trying the range form first and then
+// falling back re-parsed every nested operand at each nesting level.
+fn range_or_operand(input: SliceIter<Token>) -> ParseResult<Expression> {
+    let pos: Position = (&input).into();
+    let (rest, start) = match either!(input.clone(), simple_expression, grouped_expression) {
+        Result::Complete(rest, e) => (rest, e),
+        Result::Fail(e) => return Result::Fail(e),
+        Result::Abort(e) => return Result::Abort(e),
+        Result::Incomplete(i) => return Result::Incomplete(i),
+    };
+    let after_colon = match punct!(rest.clone(), ":") {
+        Result::Complete(after_colon, _) => after_colon,
+        _ => return Result::Complete(rest, start),
+    };
+    // start ":" second [":" third]
+    let (rest, second) = match must!(
+        after_colon,
+        wrap_err!(
+            either!(simple_expression, grouped_expression),
+            "Expected simple or grouped expression"
+        )
+    ) {
+        Result::Complete(rest, e) => (rest, e),
+        Result::Fail(e) => return Result::Fail(e),
+        Result::Abort(e) => return Result::Abort(e),
+        Result::Incomplete(i) => return Result::Incomplete(i),
+    };
+    let (rest, step, end) = match punct!(rest.clone(), ":") {
+        Result::Complete(after_colon, _) => match must!(
+            after_colon,
+            wrap_err!(
+                either!(simple_expression, grouped_expression),
+                "Expected simple or grouped expression"
             )
-        ),
-        end => must!(wrap_err!(either!(simple_expression, grouped_expression), "Expected simple or grouped expression")),
-        (Expression::Range(RangeDef{
+        ) {
+            Result::Complete(rest, e) => (rest, Some(Box::new(second)), e),
+            Result::Fail(e) => return Result::Fail(e),
+            Result::Abort(e) => return Result::Abort(e),
+            Result::Incomplete(i) => return Result::Incomplete(i),
+        },
+        _ => (rest, None, second),
+    };
+    Result::Complete(
+        rest,
+        Expression::Range(RangeDef {
             pos,
             start: Box::new(start),
-            step: maybe_step,
+            step,
             end: Box::new(end),
-        }))
+        }),
     )
-);
+}
 
 make_fn!(
     import_expression<SliceIter<Token>, Expression>,
@@ -846,8 +878,6 @@ fn unprefixed_expression(input: SliceIter<Token>) -> ParseResult<Expression> {
     let _input = input.clone();
     either!(
         input,
-        trace_parse!(format_expression),
-        trace_parse!(simple_expression),
         // cast parse attempts must happen before call parse attempts.
         trace_parse!(cast_expression),
         trace_parse!(call_expression),
@@ -867,9 +897,9 @@ make_fn!(
         trace_parse!(convert_expression),
         trace_parse!(module_expression),
         trace_parse!(alt_select_expression),
-        trace_parse!(range_expression),
-        trace_parse!(grouped_expression),
         trace_parse!(include_expression),
+        trace_parse!(format_expression),
+        trace_parse!(range_or_operand),
         trace_parse!(unprefixed_expression)
     )
 );
@@ -878,12 +908,9 @@ pub fn expression(input: SliceIter<Token>) -> ParseResult<Expression> {
     #[cfg(ucg_verif)]
     crate::verif::tick("parse::expression");
     let _input = input.clone();
-    match trace_parse!(_input, op_expression) {
-        Result::Incomplete(i) => Result::Incomplete(i),
-        Result::Fail(_) => trace_parse!(input, non_op_expression),
-        Result::Abort(e) => Result::Abort(e),
-        Result::Complete(rest, expr) => Result::Complete(rest, expr),
-    }
+    // op_expression also handles a lone operand without any operator, so
+    // there is no need to parse the same tokens again when it fails.
+    trace_parse!(_input, op_expression)
 }
 
 make_fn!(
